@@ -280,6 +280,15 @@ func (win Window) Wrap(segs ...Segment) (col int, row int) {
 				break
 			}
 			segment, rest, _, state = uniseg.FirstLineSegmentInString(rest, state)
+			// A line segment must not end inside a grapheme cluster (a
+			// combining mark after a space; the second regional indicator
+			// of a flag at the start of a segment's text): the cluster
+			// would be split across two cells
+			for len(rest) > 0 && splitsCluster(segment, rest) {
+				var more string
+				more, rest, _, state = uniseg.FirstLineSegmentInString(rest, state)
+				segment += more
+			}
 			chars := Characters(segment)
 			total := 0
 			for i, char := range chars {
@@ -332,4 +341,16 @@ func (win Window) Wrap(segs ...Segment) (col int, row int) {
 		}
 	}
 	return col, row
+}
+
+// splitsCluster reports whether the last grapheme cluster of a continues into
+// b, ie whether cutting the text a+b between a and b cuts a cluster in two
+func splitsCluster(a, b string) bool {
+	var last string
+	state := -1
+	for len(a) > 0 {
+		last, a, _, state = uniseg.FirstGraphemeClusterInString(a, state)
+	}
+	cluster, _, _, _ := uniseg.FirstGraphemeClusterInString(last+b, -1)
+	return len(cluster) > len(last)
 }
